@@ -213,17 +213,32 @@ fn reader_side(ctx: &Ctx, rng: &mut Rng) {
                 };
                 Val::Tuple(vec![term_with_atoms(rng, &atoms), extra])
             };
+            // a third of the messages are control-only (LINK, EXIT, MONITOR_P ... carry no payload term); their
+            // headers create and overwrite cache entries like any other
+            let with_payload = !rng.chance(1, 3);
+            let control_v = if with_payload {
+                control_v
+            } else {
+                Val::Tuple(vec![
+                    Val::int(1),
+                    Val::Pid { node: atoms[0].clone(), id: m as u32, serial: 0, creation: 1 },
+                    Val::Pid { node: atoms[atoms.len() - 1].clone(), id: 7, serial: 1, creation: 2 },
+                ])
+            };
             let mut all_atoms = Vec::new();
             collect_atoms(&control_v, &mut all_atoms);
-            collect_atoms(&payload_v, &mut all_atoms);
+            if with_payload {
+                collect_atoms(&payload_v, &mut all_atoms);
+            }
             let refs = plan_message(rng, &mut sender, &all_atoms, fraction, slot_space);
-            let bytes = write_message(&refs, &[&control_v, &payload_v]);
+            let bytes = if with_payload { write_message(&refs, &[&control_v, &payload_v]) } else { write_message(&refs, &[&control_v]) };
             // self-check of the model: the independent reader must agree with the independent writer
             // (uses its own receiver cache, rebuilt per history below)
             let long = refs.iter().any(|r| r.new_entry && r.atom.len() > 255);
             trace.push(json!({"refs": refs.iter().map(|r| format!("{}{}:{}={}", if r.new_entry { "+" } else { "" }, r.segment, r.internal, r.atom.chars().take(12).collect::<String>())).collect::<Vec<_>>(), "bytes": hex_cap(&bytes, 40)}));
             let class = format!(
-                "reader/n{}{}{}{}{}",
+                "reader/{}n{}{}{}{}{}",
+                if with_payload { "" } else { "control-only/" },
                 refs.len().min(9),
                 if refs.iter().any(|r| !r.new_entry) { "/reuse" } else { "" },
                 if refs.iter().enumerate().any(|(i, r)| r.internal as usize != i) { "/pos≠slot" } else { "" },
@@ -233,7 +248,8 @@ fn reader_side(ctx: &Ctx, rng: &mut Rng) {
             ctx.class(&class);
             let got = guarded(|| erltf::decode_with_atom_cache(&bytes, &mut cache));
             let ok = match &got {
-                Ok(Ok((c, Some(p)))) => val_of(c).same(&control_v) && val_of(p).same(&payload_v),
+                Ok(Ok((c, Some(p)))) => with_payload && val_of(c).same(&control_v) && val_of(p).same(&payload_v),
+                Ok(Ok((c, None))) => !with_payload && val_of(c).same(&control_v),
                 _ => false,
             };
             if !ok {
@@ -290,7 +306,7 @@ fn model_selfcheck(ctx: &Ctx, rng: &mut Rng) -> bool {
 }
 
 pub fn run(ctx: &Ctx) {
-    ctx.rule("writer side: control/payload pairs with 0..300 distinct atoms (even/odd counts, atom lengths 0..255, 256..1020, >65535; atoms only inside pids/funs) encoded by the library and read by an independent header reader and by the library's own decoder; reader side: histories of 1..50 messages from an atom-cache sender model (new entries, re-use of entries of earlier messages, slot overwrites, all 8 segments, header position != slot, shuffled header order) decoded with one persistent AtomCache; evaluations = messages judged; distinct = distinct (side, reference count, reuse, position!=slot, segment use, long-atom parity) combinations");
+    ctx.rule("writer side: control/payload pairs with 0..300 distinct atoms (even/odd counts, atom lengths 0..255, 256..1020, >65535; atoms only inside pids/funs) encoded by the library and read by an independent header reader and by the library's own decoder; reader side: histories of 1..50 messages from an atom-cache sender model (with and without a payload term; new entries, re-use of entries of earlier messages, slot overwrites, all 8 segments, header position != slot, shuffled header order) decoded with one persistent AtomCache; evaluations = messages judged; distinct = distinct (side, reference count, reuse, position!=slot, segment use, long-atom parity) combinations");
     ctx.assume("header layout per erl_dist_protocol: flags nibble i for reference i (bit3 new entry, bits0-2 segment), nibble n bit0 = LongAtoms; ATOM_CACHE_REF k = k-th reference of this header; cache slot = segment*256 + internal index");
     let mut rng = Rng::derive(ctx.seed, 14, 1);
     if !model_selfcheck(ctx, &mut rng) {
